@@ -107,6 +107,26 @@ def algorithm(name, hp, fresh=False):
   return make() if fresh else cached(key, make)
 
 
+def apfl_eval():
+  """The evaluation function of APFL on the tiny model (squared error as the only metric)."""
+  import fedjax
+  from fedjax.algorithms import apfl
+
+  def make():
+    class SqErr(fedjax.metrics.Metric):
+      def zero(self):
+        return fedjax.metrics.MeanStat.new(0., 0.)
+
+      def evaluate_example(self, example, prediction):
+        return fedjax.metrics.MeanStat.new((prediction - example['y']) ** 2, 1.)
+
+    model = fedjax.Model(init=None, apply_for_train=None,
+                         apply_for_eval=lambda params, batch: batch['x'] @ params['lin']['w'] + params['lin']['b'],
+                         train_loss=None, eval_metrics={'sqerr': SqErr()})
+    return apfl.eval_adaptive_personalized_federated_learning(model, fedjax.PaddedBatchHParams(batch_size=4))
+  return cached(('apfl_eval',), make)
+
+
 def init_state(name, hp, alg):
   if name == 'hyp_cluster':
     return alg.init([init_params(k + hp.get('p0', 0)) for k in range(hp.get('K', 2))])
